@@ -244,6 +244,170 @@ func classify(fset *token.FileSet, path []ast.Node, v string) (string, string) {
 	return best, form
 }
 
+// ---- construction sites of exception values (C05 round 3) ----
+
+// functions whose exception construction sites are listed: everything in py/generator.go, the
+// instructions of vm/eval.go that make / read the StopIteration of a finishing generator, and
+// the helpers of py/exception.go they call
+var excScope = map[string]func(fn string) bool{
+	"py/generator.go": func(string) bool { return true },
+	"vm/eval.go": func(fn string) bool {
+		switch fn {
+		case "do_YIELD_FROM", "Vm.throwYieldFrom", "stopIterationValue", "do_END_FINALLY", "do_RETURN_VALUE", "do_YIELD_VALUE", "Vm.raise", "Vm.SetException":
+			return true
+		}
+		return false
+	},
+	"py/exception.go": func(fn string) bool {
+		switch fn {
+		case "exceptionNew", "ExceptionNew", "ExceptionNewf", "MakeException", "Exception.M__getattr__":
+			return true
+		}
+		return false
+	},
+}
+
+// predicates / consumers of exceptions: not constructors
+var excNotCtor = map[string]bool{"IsException": true, "ExceptionClassCheck": true, "ExceptionGivenMatches": true,
+	"SetException": true, "CheckException": true, "CheckExceptionRecover": true, "UnwindExceptHandler": true}
+
+type excSite struct {
+	file, fn string
+	ord      int
+	line     int
+	ctor     string // ExcCtor constructor name
+	form     string // normalised text of the expression
+}
+
+func calleeName(c *ast.CallExpr) string {
+	switch f := c.Fun.(type) {
+	case *ast.Ident:
+		return f.Name
+	case *ast.SelectorExpr:
+		return f.Sel.Name
+	}
+	return ""
+}
+
+func isTuple1(e ast.Expr) bool {
+	cl, ok := e.(*ast.CompositeLit)
+	if !ok || len(cl.Elts) != 1 {
+		return false
+	}
+	switch t := cl.Type.(type) {
+	case *ast.Ident:
+		return t.Name == "Tuple"
+	case *ast.SelectorExpr:
+		return t.Sel.Name == "Tuple"
+	}
+	return false
+}
+
+func isIdentNamed(e ast.Expr, names map[string]bool) bool {
+	switch t := e.(type) {
+	case *ast.Ident:
+		return names[t.Name]
+	case *ast.SelectorExpr:
+		if x, ok := t.X.(*ast.Ident); ok && x.Name == "py" {
+			return names[t.Sel.Name]
+		}
+	}
+	return false
+}
+
+// excSitesOf lists the construction sites of one function body in source order
+func excSitesOf(fset *token.FileSet, rel, name string, body *ast.BlockStmt, classNames map[string]bool) []excSite {
+	var out []excSite
+	add := func(n ast.Node, ctor string) {
+		out = append(out, excSite{rel, name, len(out), fset.Position(n.Pos()).Line, ctor, text(fset, n)})
+	}
+	ast.Inspect(body, func(n ast.Node) bool {
+		switch x := n.(type) {
+		case *ast.CallExpr:
+			cn := calleeName(x)
+			low := strings.ToLower(cn)
+			switch {
+			case cn == "exceptionNew" && len(x.Args) == 2:
+				switch {
+				case isTuple1(x.Args[1]):
+					add(x, "newTuple1")
+				case text(fset, x.Args[1]) == "nil":
+					add(x, "newNil")
+				default:
+					if _, ok := x.Args[1].(*ast.Ident); ok {
+						add(x, "newArgs")
+					} else {
+						add(x, "other")
+					}
+				}
+			case cn == "ExceptionNewf":
+				add(x, "newf")
+				return false // the format arguments are not sites
+			case cn == "resume" && len(x.Args) == 2:
+				if id, ok := x.Args[1].(*ast.Ident); ok && id.Name != "nil" {
+					add(x, "passExc")
+				}
+			case cn == "stopIterationValue":
+				add(x, "readValue")
+			case cn == "MakeException":
+				add(x, "makeExc")
+			case excNotCtor[cn]:
+			case strings.Contains(low, "exception") || strings.Contains(low, "excinfo") || strings.HasPrefix(low, "exc"):
+				add(x, "other")
+			}
+		case *ast.CompositeLit:
+			t := text(fset, x.Type)
+			if t == "Exception" || t == "py.Exception" || t == "ExceptionInfo" || t == "py.ExceptionInfo" {
+				add(x, "literal")
+			}
+		case *ast.ReturnStmt:
+			if len(x.Results) > 0 {
+				last := x.Results[len(x.Results)-1]
+				if isIdentNamed(last, classNames) {
+					add(x, "bareType")
+				} else if name == "stopIterationValue" || name == "Exception.M__getattr__" {
+					for _, r := range x.Results {
+						if ix, ok := r.(*ast.IndexExpr); ok {
+							if text(fset, ix.Index) == "0" {
+								add(x, "readArg0")
+							} else {
+								add(x, "other")
+							}
+						}
+					}
+				}
+			}
+		}
+		return true
+	})
+	return out
+}
+
+// exception class variables of py/exception.go: `X = Base.NewType("X", …)` / `NewType(…)`
+func excClassNames(repo string) map[string]bool {
+	names := map[string]bool{}
+	fset := token.NewFileSet()
+	f, err := parser.ParseFile(fset, filepath.Join(repo, "py", "exception.go"), nil, 0)
+	if err != nil {
+		return names
+	}
+	ast.Inspect(f, func(n ast.Node) bool {
+		vs, ok := n.(*ast.ValueSpec)
+		if !ok {
+			return true
+		}
+		for i, v := range vs.Values {
+			if c, ok := v.(*ast.CallExpr); ok && i < len(vs.Names) {
+				if cn := calleeName(c); cn == "NewType" || cn == "NewTypeX" {
+					names[vs.Names[i].Name] = true
+				}
+			}
+		}
+		return true
+	})
+	return names
+}
+
 func main() {
 	if len(os.Args) != 3 {
 		fmt.Fprintln(os.Stderr, "usage: itersites <repo> <out.lean>")
@@ -251,6 +415,8 @@ func main() {
 	}
 	repo, out := os.Args[1], os.Args[2]
 	var sites, derived []site
+	var excs []excSite
+	classNames := excClassNames(repo)
 	for _, dir := range []string{"vm", "py", "stdlib/builtin"} {
 		files, _ := filepath.Glob(filepath.Join(repo, dir, "*.go"))
 		sort.Strings(files)
@@ -274,6 +440,9 @@ func main() {
 				if fd.Recv != nil && len(fd.Recv.List) == 1 {
 					t := text(fset, fd.Recv.List[0].Type)
 					name = strings.TrimPrefix(t, "*") + "." + name
+				}
+				if in, ok := excScope[filepath.ToSlash(rel)]; ok && in(name) {
+					excs = append(excs, excSitesOf(fset, filepath.ToSlash(rel), name, fd.Body, classNames)...)
 				}
 				ord, dord := 0, 0
 				var path []ast.Node
@@ -341,6 +510,14 @@ func main() {
 		}
 		fmt.Fprintf(&b, "  ⟨%q, %q, %d, .%s⟩%s  -- line %d: %s\n", s.file, s.fn, s.ord, s.kind, sep, s.line, s.form)
 	}
+	b.WriteString("]\n\n/-- every construction site of an exception value in py/generator.go, in the generator instructions of vm/eval.go\n(do_YIELD_FROM, throwYieldFrom, stopIterationValue, END_FINALLY, RETURN_VALUE, YIELD_VALUE, raise, SetException) and in the\nhelpers of py/exception.go they call: function, ordinal in source order, constructor used, text of the expression -/\ndef excSites : List ExcSite := [\n")
+	for i, s := range excs {
+		sep := ","
+		if i == len(excs)-1 {
+			sep = ""
+		}
+		fmt.Fprintf(&b, "  ⟨%q, %q, %d, .%s, %q⟩%s  -- line %d\n", s.file, s.fn, s.ord, s.ctor, s.form, sep, s.line)
+	}
 	b.WriteString("]\n\nend GPy.C05.Generated\n")
 	old, _ := os.ReadFile(out)
 	if string(old) != b.String() {
@@ -352,6 +529,9 @@ func main() {
 	fmt.Printf("itersites: %d sites\n", len(sites))
 	for _, s := range sites {
 		fmt.Printf("SITE %s %s %d %s\n", s.file, s.fn, s.ord, s.kind)
+	}
+	for _, s := range excs {
+		fmt.Printf("EXCSITE %s %s %d %s\n", s.file, s.fn, s.ord, s.ctor)
 	}
 	for _, s := range derived {
 		fmt.Printf("DERIVED %s %s %d %s\n", s.file, s.fn, s.ord, s.kind)
